@@ -230,7 +230,9 @@ class ExcelModel:
         get_in = sh.get_nested_dicts
         if isinstance(worksheet, str):
             book = get_in(self.books, context['excel'], BOOK)
-            worksheet = book[_get_name(worksheet, book.sheetnames)]
+            worksheet = book[_get_name(
+                worksheet.replace("''", "'"), book.sheetnames
+            )]
 
         ctx = {'sheet': worksheet.title.upper()}
         ctx.update(context)
@@ -540,6 +542,7 @@ class ExcelModel:
                 _decode_path(rng.get('directory', '')), rng.get('filename', '')
             ))
             fpath, sheet_name = _get_name(fpath, books), rng.get('sheet')
+            sheet_name = sheet_name and sheet_name.replace("''", "'")
             if not (fpath and sheet_name):
                 log.info('Node `%s` cannot be saved '
                          '(missing filename and/or sheet_name).' % k)
